@@ -343,9 +343,9 @@ pub fn def() -> PropDef {
         rule: "rep_envelope: case index walks peer type (REQ/DEALER), request form (6 normal : single-frame : delimiter-last) and prefix depth 0..3, payload frame lengths drawn from the boundary grid with empty frames inside; req_envelope / end_to_end: drawn payloads; every case also draws transport segmentation and schedule; non-trivial = degenerate form, non-empty routing prefix, empty frame inside a payload, or two real sockets; distinct = distinct (plan, schedule, transport) hashes",
         assumptions: &["requests without any empty frame are outside the statement and are not generated (except the single-frame form, which cannot hold delimiter + payload)"],
         strata: vec![
-            Stratum { name: "rep_envelope", quick: 60_000, thorough: 1_000_000, exhaustive: (false, false), run: rep_envelope, what: "scripted REQ/DEALER/ROUTER-chain requests into a REP socket, reply envelope on the wire" },
-            Stratum { name: "req_envelope", quick: 30_000, thorough: 500_000, exhaustive: (false, false), run: req_envelope, what: "REQ socket against a scripted REP" },
-            Stratum { name: "end_to_end", quick: 25_000, thorough: 500_000, exhaustive: (false, false), run: end_to_end, what: "REQ socket against REP socket" },
+            Stratum { name: "rep_envelope", quick: 60_000, thorough: (1_000_000) * 2, exhaustive: (false, false), run: rep_envelope, what: "scripted REQ/DEALER/ROUTER-chain requests into a REP socket, reply envelope on the wire" },
+            Stratum { name: "req_envelope", quick: 30_000, thorough: (500_000) * 2, exhaustive: (false, false), run: req_envelope, what: "REQ socket against a scripted REP" },
+            Stratum { name: "end_to_end", quick: 25_000, thorough: (500_000) * 2, exhaustive: (false, false), run: end_to_end, what: "REQ socket against REP socket" },
         ],
     }
 }
